@@ -662,8 +662,8 @@ class Mesh:
         return True
 
     @staticmethod
-    def _remove_duplicate_nodes(p, t):
-        tmp = np.ascontiguousarray(p.T)
+    def _remove_duplicate_nodes(p, t, key=None):
+        tmp = np.ascontiguousarray((p if key is None else key).T)
         tmp, ixa, ixb = np.unique(tmp.view([('', tmp.dtype)] * tmp.shape[1]),
                                   return_index=True, return_inverse=True)
         return p[:, ixa], Mesh._squeeze_if(ixb[t])
@@ -709,10 +709,13 @@ class Mesh:
         cls = type(self)
         if not isinstance(other, cls):
             raise TypeError("Can only join meshes with same type.")
-        p = np.hstack((self.p.round(decimals=8),
-                       other.p.round(decimals=8)))
+        p = np.hstack((self.p, other.p))
         t = np.hstack((self.t, other.t + self.p.shape[1]))
-        return cls(*self._remove_duplicate_nodes(p, t))
+        # vertices are merged if they agree to 8 decimals relative to the
+        # size of the joined mesh; the coordinates themselves are kept
+        scale = np.max(np.ptp(p, axis=1))
+        key = (p / (scale if scale > 0. else 1.)).round(decimals=8)
+        return cls(*self._remove_duplicate_nodes(p, t, key))
 
     def __repr__(self):
         rep = ""
